@@ -48,8 +48,8 @@ def Epa2Out (S1 S2 : V2 K → Prop) (p1 p2 n : V2 K) : Prop :=
     (letI := fieldNum K sq
      ccwFaceNormal2 a.point b.point = some n ∨ (ccwFaceNormal2 a.point b.point = none ∧ n = ⟨0, 0⟩))
 
-private theorem epsGjk_eq : (letI := fieldNum K sq; (gjkEpsTol : K)) = epsGjk K := by
-  simp only [gjkEpsTol, epsDefault, fieldNum_lit, epsGjk]
+private theorem epsGjk_eq : (letI := fieldNum K sq; (epaGjkEpsTol : K)) = epsGjk K := by
+  simp only [epaGjkEpsTol, epsDefault, fieldNum_lit, epsGjk]
   show ((mkRat 1 4503599627370496 : ℚ) : K) * ((mkRat 10 1 : ℚ) : K) = 10 / 2 ^ 52
   have h1 : ((mkRat 1 4503599627370496 : ℚ) : K) = 1 / 2 ^ 52 := by
     rw [show (mkRat 1 4503599627370496 : ℚ) = 1 / 2 ^ 52 by norm_num [Rat.mkRat_eq_div]]; push_cast; ring
